@@ -13,8 +13,8 @@ import (
 
 func init() {
 	register(&PropMeta{
-		ID:    "C03",
-		Level: "other",
+		ID:          "C03",
+		Level:       "other",
 		Explanation: "Decides the all-or-nothing clause and the pairing clauses structurally: (R1) no seat-manager mutator has a seat-map / occupant-field write on any path to an error exit; (R2) each mutator can return the sentinels the statement names and both assigners reject an already seated id; (R3) no engine membership operation reaches an error exit after a write to the existing table's player list / seat map / hand index list or after a seat-manager assign/remove that succeeded (inter-procedural error-purity summaries; roots reported once, propagating callers listed as inheriting); (R4) the seat stored for a new player is the seat manager's answer for that same id, the ids removed from the seat manager are the ids filtered from the player list; (R5) capacity guards; (R6) who may call the seat-manager assign/remove and who may store the three headers; (R7) the seated-in flag is set together with the seat manager's. NOT decided: equality of the three views after arbitrary histories, seat reuse, index arithmetic of the seat-map patch.",
 		Rules: map[string]string{
 			"R1": "seat-manager mutators: error exits are mutation-free (map update / ID / IsIn / HasChips)",
